@@ -175,6 +175,17 @@ def optKey : P (Option Nat) := do
     | none => failure
   | _ => failure
 
+def bytesList : P (List BS) := do
+  let n ← nat
+  repeatP n bytesTok
+
+def side : P Side := do
+  let t ← tok
+  match t with
+  | "LEFT" => pure .left
+  | "RIGHT" => pure .right
+  | _ => failure
+
 def cmd : P Cmd := do
   let t ← tok
   match t with
@@ -216,6 +227,17 @@ def cmd : P Cmd := do
   | "EXPIRETIME" => do let k ← strKey; pure (.expiretime k)
   | "PEXPIRETIME" => do let k ← strKey; pure (.pexpiretime k)
   | "PERSIST" => do let k ← strKey; pure (.persist k)
+  | "LPUSH" => do let k ← strKey; let vs ← bytesList; pure (.lpush k vs)
+  | "RPUSH" => do let k ← strKey; let vs ← bytesList; pure (.rpush k vs)
+  | "LPOP" => do let k ← strKey; pure (.lpop k)
+  | "RPOP" => do let k ← strKey; pure (.rpop k)
+  | "LLEN" => do let k ← strKey; pure (.llen k)
+  | "LINDEX" => do let k ← strKey; let i ← int; pure (.lindex k i)
+  | "LRANGE" => do let k ← strKey; let a ← int; let b ← int; pure (.lrange k a b)
+  | "LSET" => do let k ← strKey; let i ← int; let v ← bytesTok; pure (.lset k i v)
+  | "LTRIM" => do let k ← strKey; let a ← int; let b ← int; pure (.ltrim k a b)
+  | "RPOPLPUSH" => do let a ← strKey; let b ← strKey; pure (.rpoplpush a b)
+  | "LMOVE" => do let a ← strKey; let b ← strKey; let f ← side; let t ← side; pure (.lmove a b f t)
   | _ => failure
 
 inductive Line
